@@ -19,8 +19,44 @@ func checkC16(p *Prog, r *Report) {
 	}
 	ruleC16File(p, a, r)
 	ruleC16Pair(p, a, r)
+	ruleC16ExecFile(p, a, r)
 	ruleC16TokenPos(p, a, r)
 	ruleC16Newline(p, a, r)
+}
+
+// R-C16-EXECFILE: the constructor of execution errors names the template the reported token belongs to.
+func ruleC16ExecFile(p *Prog, a *Anchors, r *Report) {
+	r.Begin("R-C16-EXECFILE", "execution errors built from a token take their Filename from that token (the template that contains the position), falling back to the executing template only without a token", 1)
+	n := 0
+	fi := fieldIndex(a.Error, "Filename")
+	for _, f := range p.Methods(a.ExecCtx) {
+		tokParam := paramOfType(f, types.NewPointer(a.Token))
+		if tokParam == nil || f.Signature.Results().Len() != 1 || f.Blocks == nil {
+			continue
+		}
+		for _, al := range errorAllocs(a, f) {
+			n++
+			key := p.FuncName(f) + ":Filename"
+			vals := p.fieldStores([]*ssa.Alloc{al}, fi)
+			ok := false
+			for _, v := range vals {
+				toks, _ := tokenOfFieldLoad(p, v, "Filename", 0)
+				for _, tk := range toks {
+					if tk == p.VN(tokParam) {
+						ok = true
+					}
+				}
+			}
+			if ok {
+				r.OK(key, p.InstrPos(al), "Filename comes from token.Filename when a token is given")
+			} else {
+				r.Bad(key, p.InstrPos(al), "the execution error's Filename never comes from the reported token: an error inside an extended/imported template is reported under another template's name, so its line/column point into the wrong source")
+			}
+		}
+	}
+	if n == 0 {
+		r.Unk("constructor", "-", "no ExecutionContext method builds an Error from a token (anchor unresolved)")
+	}
 }
 
 // errorAllocs lists the allocations of Error objects in f.
